@@ -204,17 +204,35 @@ func r18_3(c *Ctx, r *Report) {
 	}
 	// the duty-god index is (day branch - month branch) mod 12 + 1
 	if fn := c.Fn(r, rule, "calendar.(*Lunar).GetZhiXing"); fn != nil {
-		s := ""
-		for _, b := range fn.Blocks {
-			for _, ins := range b.Instrs {
-				if ia, ok := ins.(*ssa.IndexAddr); ok {
-					s = symExpr(c, ia.Index, nil, map[ssa.Value]string{}, 0)
+		zx := c.tabStrs(r, rule, "LunarUtil", "ZHI_XING")
+		var bad []string
+		n := 0
+		for dz := int64(0); dz < 12 && zx != nil; dz++ {
+			for mz := int64(0); mz < 12; mz++ {
+				ev := &evaluator{inline: inlineLibrary, leaf: func(fr *evalFrame, v ssa.Value) (interface{}, bool) {
+					if rc, f, ok := getterField(c, v); ok {
+						if ofr, o := fr.origin(rc); ofr.parent == nil && o == ssa.Value(fn.Params[0]) {
+							switch f {
+							case "Lunar.dayZhiIndex":
+								return dz, true
+							case "Lunar.monthZhiIndex":
+								return mz, true
+							}
+						}
+					}
+					return nil, false
+				}}
+				res, outcome := ev.run(fn, nil, nil, nil, nil)
+				n++
+				k := int((dz-mz+12)%12) + 1
+				if outcome != "return" || len(res) != 1 {
+					bad = append(bad, "not followed: "+outcome+" "+ev.fail)
+				} else if k >= len(zx) || res[0] != interface{}(zx[k]) {
+					bad = append(bad, fmt.Sprintf("day branch %d, month branch %d: %v", dz, mz, res[0]))
 				}
 			}
 		}
-		okk := strings.Contains(s, "(*t0 - *t2)") || strings.Contains(s, "- ") // refined below
-		okk = strings.HasPrefix(s, "(1 + ") && strings.Contains(s, "12")
-		r.check(okk, rule, "calendar.(*Lunar).GetZhiXing indexes by (day branch - month branch) mod 12 + 1", c.fnPos(fn), "index expression "+s)
+		r.check(len(bad) == 0 && n == 144, rule, "calendar.(*Lunar).GetZhiXing indexes by (day branch - month branch) mod 12 + 1", c.fnPos(fn), fmt.Sprintf("%d (day branch, month branch) pairs evaluated against ZHI_XING[(d - m) mod 12 + 1]; deviations: %v", n, headList(bad, 3)))
 	}
 	r.floor(rule, 10)
 }
